@@ -417,6 +417,11 @@ where
                 rollback_completed =
                     self.try_rollback_snapshot(snapshot_path).await.is_ok();
             }
+            // No snapshot means the event log was empty
+            // so restore the empty state
+            (false, None) => {
+                rollback_completed = self.clear().await.is_ok();
+            }
             // Delete the snapshot if verified
             (true, Some(snapshot_path)) => {
                 vfs::remove_file(snapshot_path).await?;
